@@ -104,8 +104,6 @@ mod rkyv_tooling;
 mod server;
 mod utils;
 
-use std::collections::hash_map::DefaultHasher;
-use std::hash::{Hash, Hasher};
 
 /// A re-export of the async-trait macro.
 pub use async_trait::async_trait;
@@ -125,12 +123,6 @@ pub use self::net::{
 pub use self::request::{Request, RequestContents};
 pub use self::rkyv_tooling::{to_view_bytes, DataView, InvalidView};
 pub use self::server::Server;
-
-pub(crate) fn hash<H: Hash + ?Sized>(v: &H) -> u64 {
-    let mut hasher = DefaultHasher::new();
-    v.hash(&mut hasher);
-    hasher.finish()
-}
 
 #[cfg(feature = "verif")]
 /// Verification hooks (feature `verif`, off by default): nothing here changes the behaviour of the crate.
